@@ -209,14 +209,22 @@ class SymWorld(BaseWorld):
 
 # =============================================================================================
 class _ReplayRNG:
-    def __init__(self, world):
+    """generator whose draws are the values of the model (same naming as the symbolic stub: unseeded generators share one
+    call counter, generators created with an explicit seed replay their own stream)"""
+
+    def __init__(self, world, seed=None):
         self.w = world
-        self.count = 0
+        self.seed = seed
+        self.k = 0
 
     def normal(self, loc=0.0, scale=1.0, size=None):
         n = 1 if size is None else int(size)
-        c = self.count
-        self.count += 1
+        if self.seed is None:
+            c = self.w._rng_count
+            self.w._rng_count += 1
+        else:
+            c = f"s{self.seed}_{self.k}"
+            self.k += 1
         self.w._rng_calls.append((c, n))
         xs = rnp.array([self.w._val(f"xi_{c}_{i}") for i in range(n)], dtype=float)
         r = xs * scale + loc
@@ -242,7 +250,11 @@ class RealWorld(BaseWorld):
         self.failures = []
         self.checked = 0
         self._rng_calls = []
+        self._rng_count = 0
         self._used = set()
+        # every generator the real code creates replays the model's draws
+        self._orig_default_rng = rnp.random.default_rng
+        rnp.random.default_rng = lambda seed=None, *a, **k: _ReplayRNG(self, seed)
         if repo not in sys.path:
             sys.path.insert(0, repo)
 
@@ -435,7 +447,12 @@ class RealWorld(BaseWorld):
         return self._val(f"xi_{call}_{i}")
 
     def patch_rng(self, tracker):
-        tracker.rng = _ReplayRNG(self)
+        if not isinstance(tracker.rng, _ReplayRNG):
+            tracker.rng = _ReplayRNG(self)
+
+    def cleanup(self):
+        rnp.random.default_rng = self._orig_default_rng
+        super().cleanup()
 
     def nclog(self):
         return []
